@@ -1,3 +1,4 @@
+import Cpppo.Props.C02
 import Cpppo.Props.C03
 import Cpppo.Props.C04
 import Cpppo.Props.C05
